@@ -651,7 +651,15 @@ func witnesses() []witness {
 	w3 := &Doc{Files: []*DFile{{Path: "main.thrift",
 		Structs: []*DStruct{{Kind: 's', Name: "S"}},
 		Consts:  []*DConstDef{{Name: "c", Type: &DType{Name: "S"}, Value: &DConst{Kind: 'm'}}}}}}
+	// an included file whose base name has inner dots: the alias is the base name minus ".thrift" only
+	w4 := &Doc{Files: []*DFile{
+		{Path: "main.thrift", Includes: []int{1},
+			Structs:  []*DStruct{{Kind: 's', Name: "M", Fields: []*DField{{Name: "f", ID: 1, Type: &DType{Name: "base.v2.S"}}, {Name: "e", ID: 2, Type: &DType{Name: "base.v2.E"}}}}},
+			Services: []*DService{{Name: "Svc", Extends: "base.v2.Base"}}},
+		{Path: "sub/base.v2.thrift", Structs: []*DStruct{{Kind: 's', Name: "S"}}, Enums: []*DEnum{{Name: "E"}}, Services: []*DService{{Name: "Base"}}},
+	}}
 	return []witness{
+		{"include of a file with inner dots in its base name", "dotted-include-alias", w4},
 		{"two includes with equal base name", "include-basename-collision", w1},
 		{"one namespace language stated twice", "namespace-language-twice", w2},
 		{"type descriptor of a constant after RegisterAST", "const-type-no-registry", w3},
@@ -936,6 +944,9 @@ func docStats(out *vl.Out, d *Doc, cfg genCfg) {
 			out.Count("includes")
 			if k < len(f.IncPaths) && f.IncPaths[k] != "" {
 				out.Count("include:written-relative-to-includer")
+			}
+			if strings.Contains(prefixOf(d.Files[f.Includes[k]].Path), ".") {
+				out.Count("include:base-name-with-inner-dots")
 			}
 		}
 		for range f.NS {
